@@ -454,7 +454,14 @@ impl<'tcx> Cx<'tcx> {
                         let mut ops: Vec<&Operand<'tcx>> = vec![];
                         match &b.1 {
                             Rvalue::Use(op, ..) => ops.push(op),
-                            Rvalue::Aggregate(_, fs) => {
+                            Rvalue::Aggregate(kind, fs) => {
+                                // a promoted unit variant (`&TableType::LALR`) has no operand: export its name
+                                if fs.is_empty() {
+                                    if let AggregateKind::Adt(did, vi, _, _, _) = &**kind {
+                                        let v = tcx.adt_def(*did).variant(*vi);
+                                        consts.push(s(format!("{}::{}", tcx.def_path_str(*did), v.name)));
+                                    }
+                                }
                                 for f in fs.iter() {
                                     ops.push(f)
                                 }
